@@ -108,6 +108,7 @@ MInit ==
       drvlast |-> 0,
       sig |-> <<>>,        \* payload -> plain entity whose auto-despawn signal travels in it
       doomedE |-> {},      \* plain entities whose signal has been released: the next GC must despawn them
+      immk |-> {},         \* <<r, i>> of ops that are immediate calls from an exclusive body
       deadop |-> FALSE,    \* some register / revoke op named an entity that was already despawned when it was applied
       taint |-> {},        \* commands whose start overlapped another pending delivery to the same system (finding F1)
       viol |-> {} ]
@@ -248,7 +249,13 @@ NormOp(op) ==
       [] n = "smut" -> <<"mut", op[2], op[3], op[4]>>
       [] n = "sset" -> <<"set", op[2], op[3], op[4]>>
       [] n = "sno" -> <<"noreact", op[2], op[3], op[4]>>
+      \* immediate calls from the body of an exclusive system (not queued: they run nested in the body, at once)
+      [] n = "irun" -> <<"run", op[2]>>
+      [] n = "isysev" -> <<"sysev", op[2], op[3]>>
+      [] n = "ibc" -> <<"bc", op[2], op[3]>>
+      [] n = "ieev" -> <<"eev", op[2], op[3], op[4]>>
       [] OTHER -> op
+ImmOps == {"irun", "isysev", "ibc", "ieev"}
 
 (* effects and return-value checks that happen when the op is issued (body time) *)
 OnIssue(m, o) ==
@@ -256,7 +263,8 @@ OnIssue(m, o) ==
     LET op == NormOp(o.op)
         n == OpName(op)
         key == <<o.r, o.i>>
-        m0 == [m EXCEPT !.ops = Put(@, key, op), !.rets = Put(@, key, o.ret)]
+        m0 == [m EXCEPT !.ops = Put(@, key, op), !.rets = Put(@, key, o.ret),
+                        !.immk = IF o.op[1] \in ImmOps THEN @ \cup {key} ELSE @]
         newpay(p) == [out |-> 0, dropped |-> FALSE, taken |-> FALSE, zero |-> FALSE]
     IN CASE n = "bc"    -> [m0 EXCEPT !.pay = Put(@, op[3], newpay(op[3]))]
          [] n = "eev"   -> [m0 EXCEPT !.pay = Put(@, op[4], newpay(op[4]))]
@@ -347,12 +355,17 @@ OnApply(m, o) ==
         op == IF known THEN m.ops[key] ELSE <<"unknown">>
         ret == Get(m.rets, key, 0)
         t == Top(m)
+        imm == key \in m.immk
         okpos == IF o.r > 0
-                 THEN t.f = "cmd" /\ t.r = o.r /\ t.bd /\ o.i > t.lastop
+                 THEN t.f = "cmd" /\ t.r = o.r /\ (IF imm THEN ~t.bd ELSE t.bd) /\ o.i > t.lastop
                  ELSE Len(m.stack) = 0 /\ o.i > m.drvlast
         m1 == Chk(Chk(m, known, "C09", "apply marker of an op that was never issued"),
                   okpos, "C09", "op applied out of order or outside its run's command scope")
-        m2 == IF o.r > 0 /\ t.f = "cmd" THEN SetTop(m1, [t EXCEPT !.lastop = o.i]) ELSE [m1 EXCEPT !.drvlast = o.i]
+        \* an exclusive system queued its reader cleanup as a world command: the first immediate call flushes it, so from here on
+        \* the run can read nothing any more - its reading is over and the payload may be released
+        early == imm /\ o.r > 0 /\ t.f = "cmd" /\ ~t.rel /\ t.k \in DOMAIN m1.cmd
+        m1r == IF early THEN ReleaseReader(m1, m1.cmd[t.k]) ELSE m1
+        m2 == IF o.r > 0 /\ t.f = "cmd" THEN SetTop(m1r, [t EXCEPT !.lastop = o.i, !.rel = IF early THEN TRUE ELSE @]) ELSE [m1r EXCEPT !.drvlast = o.i]
         ex == ExpSched(m2, op, ret)
         m3 == ApplyEffects(m2, op, ret)
     IN Push(m3, [f |-> "op", r |-> o.r, i |-> o.i, ns |-> 0, exp |-> ex[1], etr |-> ex[2], op |-> op])
@@ -489,7 +502,7 @@ OnEnter(m, o) ==
     IF o.k \in DOMAIN m.cmd
     THEN LET c == m.cmd[o.k]
              m1 == Chk(m, c.st = "replaying", "C02", "a command was entered a second time without having been postponed")
-         IN Push(m1, [f |-> "cmd", k |-> o.k, s |-> c.s, took |-> FALSE, r |-> 0, bd |-> FALSE, fin |-> FALSE, lastop |-> 0, idx |-> o.idx])
+         IN Push(m1, [f |-> "cmd", k |-> o.k, s |-> c.s, took |-> FALSE, r |-> 0, bd |-> FALSE, fin |-> FALSE, lastop |-> 0, idx |-> o.idx, rel |-> FALSE])
     ELSE LET ok == m.last.kind # "none" /\ m.last.s = o.sys
              c == IF ok THEN m.last ELSE [NoCmd EXCEPT !.s = o.sys, !.kind = "run", !.st = "reached"]
              m1 == Chk(m, ok, "C02", "runner entered without a command application")
@@ -498,7 +511,7 @@ OnEnter(m, o) ==
              inflight == { j \in DOMAIN m.cmd : m.cmd[j].s = c.s /\ m.cmd[j].st = "reached" }
              m2 == IF inflight # {} THEN [m1 EXCEPT !.taint = @ \cup inflight \cup {o.k}] ELSE m1
          IN Push([m2 EXCEPT !.cmd = Put(@, o.k, [c EXCEPT !.seq = o.k]), !.last = NoCmd],
-                 [f |-> "cmd", k |-> o.k, s |-> c.s, took |-> FALSE, r |-> 0, bd |-> FALSE, fin |-> FALSE, lastop |-> 0, idx |-> o.idx])
+                 [f |-> "cmd", k |-> o.k, s |-> c.s, took |-> FALSE, r |-> 0, bd |-> FALSE, fin |-> FALSE, lastop |-> 0, idx |-> o.idx, rel |-> FALSE])
 
 SetCmd(m, k, st) == [m EXCEPT !.cmd = [@ EXCEPT ![k].st = st]]
 
@@ -589,7 +602,8 @@ OnBodyend(m, o) ==
     LET t == Top(m) IN
     IF ~(t.f = "cmd" /\ t.r = o.r) THEN V(m, "C09", "body end outside its run") ELSE
     LET c == m.cmd[t.k]
-    IN ReleaseReader(SetCmd(SetTop(m, [t EXCEPT !.bd = TRUE]), t.k, "ran"), c)
+        m1 == SetCmd(SetTop(m, [t EXCEPT !.bd = TRUE]), t.k, "ran")
+    IN IF t.rel THEN m1 ELSE ReleaseReader(m1, c)
 
 OnFinish(m, o, dropped) ==
     LET t == Top(m) IN
